@@ -270,7 +270,7 @@ fn sweep(ctx: &Ctx, res: &mut PartResult, which: &str) {
 }
 
 fn parts(ctx: &Ctx) -> Vec<PartSpec> {
-    ["name", "label_key", "label_val", "global_val", "global_key", "desc", "pairs", "units"].iter().map(|w| PartSpec::new(&format!("e3-{}", w), json!({"which": w})).budget(if ctx.quick() { 50.0 } else { 2400.0 })).collect()
+    ["name", "label_key", "label_val", "global_val", "global_key", "desc", "pairs", "units"].iter().map(|w| PartSpec::new(&format!("e3-{}", w), json!({"which": w})).budget(if ctx.quick() { 150.0 } else { 2400.0 })).collect()
 }
 
 fn run(ctx: &Ctx, spec: &PartSpec) -> PartResult {
